@@ -262,7 +262,9 @@ func c13GenList(r *Rng, n, cls int) []c13Tri {
 	return ts
 }
 
-var c13SpecialLens = []int{0, 1, 2, 3, 80, 81, 82, 255, 256, 257, 263, 264, 265, 511, 512, 513, 1024}
+// incl. record counts that exactly fill k blocks of 2^j bytes (floor(2^j/50) records: 81, 163, 327, 655, 1310) and their neighbours
+var c13SpecialLens = []int{0, 1, 2, 3, 80, 81, 82, 255, 256, 257, 263, 264, 265, 511, 512, 513, 1024,
+	163, 164, 326, 327, 328, 655, 656, 1309, 1310, 1311, 1965, 2620, 2621, 3930}
 
 // list indices >= c13BigBase are a few very long lists (count beyond 16 bits).
 const c13BigBase = 1000000
